@@ -114,6 +114,24 @@ def _key_worker(args):
     return acc.result()
 
 
+def _cert_variant_worker(args):
+    qn, = args
+    acc = core.Acc()
+    import attr
+    cls = classes.class_by_name(qn)
+    seeds = objects.seed_objects().get(cls, [])
+    if not seeds:
+        return acc.result()
+    for i, ch in enumerate(c07.cert_variants(seeds[0])):
+        try:
+            o = attr.evolve(seeds[0], **ch)
+        except Exception:  # noqa
+            continue
+        check_key(acc, o, {'kind': 'certvariant', 'cls': qn, 'variant': i})
+        acc.state(core.h64('certvariant', qn, i))
+    return acc.result()
+
+
 def _keyparam_worker(args):
     part, parts, nmax = args
     acc = core.Acc()
@@ -218,6 +236,7 @@ def run(ctx):
     ctx.pmap(_key_worker, kitems)
     ctx.pmap(_keyparam_worker, [(p, 16, 1100 if ctx.quick else 4097) for p in range(16)])
     ctx.pmap(_wire_worker, [(classes.qualname(c),) for c in key_classes()])
+    ctx.pmap(_cert_variant_worker, [(classes.qualname(c),) for c in key_classes() if c.__name__.startswith('SshHostCertificate')])
     ctx.assumptions += ['HASSH = md5(kex;enc;mac;comp) over the name-lists as they appear on the wire '
                         '(client: client-to-server lists, server: server-to-client lists)',
                         'fingerprints are digests of the RFC 4253 s6.6 blob built by the reference encoder from the key '
@@ -237,6 +256,10 @@ def replay(ctx, w):
         for side, attr_name in (('client', 'hassh'), ('server', 'hassh_server')):
             if getattr(o, attr_name) != ref.hassh_from_kexinit(wire, server=(side == 'server')):
                 acc.violation('hassh:%s:differs' % side, 'differs', w)
+    elif w['kind'] == 'certvariant':
+        res = _cert_variant_worker((w['cls'],))
+        vs = [v for v in res[1] if v['witness'].get('variant') == w.get('variant')] or res[1]
+        return vs[0] if vs else None
     elif w['kind'] == 'wire':
         res = _wire_worker((w['cls'],))
         vs = [v for v in res[1] if v['signature'].endswith(w.get('family', ['?'])[0])] or res[1]
